@@ -262,7 +262,8 @@ def O3(F, rep, R, FL):
 
 
 def O4(F, rep, R, FL):
-    """~ObjectQueue deletes and pops until empty"""
+    """~ObjectQueue deletes and pops until empty: on every path through the destructor, each loop iteration deletes the front element
+    (directly or through a local bound to it) and pops once, and the loop is left only when the queue is empty"""
     cls = R.stages['m_readWriteQueue']
     d = [f for f in methods_of(F, cls) if f.get('kind') == 'dtor']
     rep.count('O4')
@@ -270,20 +271,63 @@ def O4(F, rep, R, FL):
         rep.ob('O4', 'dtor', False, None, 'ObjectQueue has no destructor: queued objects leak')
         return
     d = d[0]
-    loops = [n for n in walk(d['body']) if n.get('k') == 'While']
-    ok = False
-    why = 'no drain loop'
-    for lp in loops:
-        cond_empty = any(x.get('k') == 'Call' and x.get('fn') == 'empty' for x in walk(lp['cond'])) and \
-            any(x.get('k') == 'Un' and x.get('op') == '!' for x in walk(lp['cond']))
-        dels = [x for x in walk(lp['body']) if x.get('k') == 'Delete' and any(y.get('k') == 'Call' and y.get('fn') == 'front' for y in walk(x))]
-        pops = [x for x in walk(lp['body']) if x.get('k') == 'Call' and x.get('fn') == 'pop']
-        if cond_empty and len(dels) == 1 and len(pops) == 1 and dels[0]['l'] <= pops[0]['l']:
-            ok = True
-            why = 'while (!m_queue.empty()) { delete front; pop }'
-        else:
-            why = 'drain loop: empty-test=%s deletes=%d pops=%d' % (cond_empty, len(dels), len(pops))
-    rep.ob('O4', 'dtor', ok, rep.fn_site(d), '~ObjectQueue: ' + why, nontrivial=True)
+    paths = FL.paths(d, follow=())
+    ok = True
+    why = ''
+    iters = 0
+    for evs, out in paths:
+        # segments between loop decisions
+        cur = None
+        exit_on_empty = False
+        for e in evs:
+            is_loop_branch = e['ev'] == 'branch' and (e.get('loop') or any(x.get('k') == 'Call' and x.get('fn') == 'empty' for x in walk(e['n'])))
+            if is_loop_branch:
+                if cur is not None:
+                    iters += 1
+                    dels = [x for x in cur if x['ev'] == 'delete']
+                    pops = [x for x in cur if x['ev'] == 'call' and x['n'].get('fn') == 'pop']
+                    fronts = [x for x in cur if x['ev'] == 'call' and x['n'].get('fn') == 'front']
+                    front_deleted = False
+                    for x in dels:
+                        tgt = deep_resolve(x['n'].get('sub'), d)
+                        if any(y.get('k') == 'Call' and y.get('fn') == 'front' for y in walk(tgt)):
+                            front_deleted = True
+                    if not (len(pops) == 1 and front_deleted and fronts):
+                        ok = False
+                        why = 'an iteration performs %d delete(s) of the front element and %d pop(s)' % (int(front_deleted), len(pops))
+                    elif evs.index(dels[0]) > evs.index(pops[0]) and not _bound_before(dels[0], pops[0], evs, d):
+                        ok = False
+                        why = 'the element is popped before the pointer to delete was taken'
+                    cur = None
+                has_empty = any(x.get('k') == 'Call' and x.get('fn') == 'empty' for x in walk(e['n']))
+                if has_empty:
+                    pol = _polarity(e['n'], [x for x in walk(e['n']) if x.get('k') == 'Call' and x.get('fn') == 'empty'][0])
+                    empty_now = (e['taken'] == pol) if pol is not None else None
+                    if empty_now is False:
+                        cur = []
+                    elif empty_now is True:
+                        exit_on_empty = True
+                elif e.get('loop') and e['taken']:
+                    cur = []
+            elif cur is not None:
+                cur.append(e)
+        if cur:
+            # the path ends inside an unrolled iteration (bounded unrolling): judge what was seen
+            pass
+    if iters == 0:
+        ok = False
+        why = 'no drain loop'
+    rep.ob('O4', 'dtor', ok, rep.fn_site(d), '~ObjectQueue: ' + ('every iteration deletes the front element and pops it (%d iterations over all paths)' % iters if ok else why),
+           nontrivial=True)
+
+
+def _bound_before(del_ev, pop_ev, evs, fn):
+    """the deleted pointer was read from front() into a local before the pop"""
+    sub = strip_all_casts(del_ev['n'].get('sub'))
+    if isinstance(sub, dict) and sub.get('k') == 'Ref' and sub.get('dk') == 'local':
+        decl = [i for i, e in enumerate(evs) if e['ev'] == 'decl' and e['var']['id'] == sub['id']]
+        return bool(decl) and decl[-1] < evs.index(pop_ev)
+    return False
 
 
 # ---------------------------------------------------------------------- C1 commit completeness, E1 check-before-commit
@@ -573,8 +617,10 @@ def E2B3(F, rep, FL, rules):
                'by that field): ' + fmt_events(bad, limit=20), nontrivial=True)
     if 'B4' in rules:
         # (ptr,len) pairs of ::uncompress / ::compress2
+        from rules_pipeline import flat_nodes
         for fn, zname in ((un, 'uncompress'), (co, 'compress2')):
-            for n in walk(fn['body']):
+            flat = list(flat_nodes(F, fn))
+            for n in flat:
                 if n.get('k') == 'Call' and n.get('fn') == zname and not n.get('calleeInRoot'):
                     rep.count('B4')
                     a = n['args']
@@ -584,7 +630,7 @@ def E2B3(F, rep, FL, rules):
                     dl = strip_all_casts(a[1])
                     dlv = dl.get('sub') if dl.get('k') == 'Un' else None
                     dlid = local_id(dlv) if dlv else None
-                    resized = [x for x in walk(fn['body']) if x.get('k') == 'Call' and x.get('fn') == 'resize' and member_path(x.get('obj')) == dst and x['l'] < n['l']]
+                    resized = [x for x in flat if x.get('k') == 'Call' and x.get('fn') == 'resize' and member_path(x.get('obj')) == dst and x['l'] < n['l']]
                     ok_dst = bool(resized) and local_id(resized[-1]['args'][0]) == dlid and dlid is not None
                     sl = strip_all_casts(a[3])
                     sname = (member_path(sl) or (None,))[-1]
@@ -1033,23 +1079,40 @@ def S1(F, rep):
     sig = None
     for e in F.enums.values():
         pass
-    loops = [n for n in walk(fn['body']) if n.get('k') == 'While']
+    loops = [n for n in walk(fn['body']) if n.get('k') in ('While', 'For', 'Do')]
     if len(loops) != 1:
         raise AnalysisBroken('ObjectHeaderBase::read: expected exactly one loop, found %d' % len(loops))
     lp = loops[0]
-    # signature constant: rhs of the loop condition  tmp != ObjectSignature
-    c = strip(lp['cond'])
-    consts = [x.get('v') for x in (strip_all_casts(c.get('lhs')), strip_all_casts(c.get('rhs'))) if isinstance(x, dict) and 'v' in x]
     rep.count('S1')
-    if c.get('k') != 'Bin' or c.get('op') != '!=' or not consts:
-        rep.ob('S1', 'loop|exit', False, rep.fn_site(fn, lp['l']), 'the signature search loop does not have the exit condition tmp != ObjectSignature')
+    SIG = None
+    allowed_breaks = []
+    c = strip(lp['cond']) if lp.get('cond') is not None else None
+    if isinstance(c, dict) and c.get('k') == 'Bin' and c.get('op') == '!=':
+        # while (tmp != ObjectSignature)
+        consts = [x.get('v') for x in (strip_all_casts(c.get('lhs')), strip_all_casts(c.get('rhs'))) if isinstance(x, dict) and 'v' in x]
+        if consts:
+            SIG = consts[0] & 0xffffffff
+    elif c is None or (isinstance(c, dict) and c.get('v') == 1):
+        # for (;;) / while (true): the only way out is a break in the branch taken when the word read equals the signature
+        for n in walk(lp['body']):
+            if n.get('k') == 'If':
+                cc = strip(n['cond'])
+                if isinstance(cc, dict) and cc.get('k') == 'Bin' and cc.get('op') in ('==', '!='):
+                    consts = [x.get('v') for x in (strip_all_casts(cc.get('lhs')), strip_all_casts(cc.get('rhs'))) if isinstance(x, dict) and 'v' in x]
+                    matched_branch = n.get('then') if cc['op'] == '==' else n.get('else')
+                    brs = [b_ for b_ in walk(matched_branch or {}) if b_.get('k') == 'Break']
+                    asg = [b_ for b_ in walk(matched_branch or {}) if b_.get('k') == 'Bin' and b_.get('op') == '=' and member_path(b_['lhs']) == ('signature',)]
+                    if consts and brs and asg and consts[0] > 0xffff:
+                        SIG = consts[0] & 0xffffffff
+                        allowed_breaks = brs
+    if SIG is None:
+        rep.ob('S1', 'loop|exit', False, rep.fn_site(fn, lp['l']), 'the signature search loop is not left exactly when the 4 bytes read equal ObjectSignature')
         return
-    SIG = consts[0] & 0xffffffff
     rep.ob('S1', 'loop|exit', True, rep.fn_site(fn, lp['l']), 'signature search exits only when the 4 bytes read equal ObjectSignature (0x%08x) or by exception' % SIG,
            nontrivial=True)
-    # no break / return inside the loop
+    # no other break / return inside the loop
     rep.count('S1')
-    esc = [n for n in walk(lp['body']) if n.get('k') in ('Break', 'Return')]
+    esc = [n for n in walk(lp['body']) if n.get('k') in ('Break', 'Return') and not any(n is b_ for b_ in allowed_breaks)]
     rep.ob('S1', 'loop|no-early-exit', not esc, rep.fn_site(fn, esc[0]['l'] if esc else lp['l']),
            'no break/return leaves the search loop without a match' if not esc else 'the search loop can be left without a match (line %s)' % esc[0]['l'])
     # partial-match branches
@@ -1340,6 +1403,14 @@ def B7(F, rep):
         rets = [r for r in walk(lam[0]['body']) if r.get('k') == 'Return']
         if rets:
             post = _norm(expr_str(rets[0]['value']))
+    else:
+        # a hand-written search loop: the condition under which a (non-null) container is returned
+        for n in walk(finder['body']):
+            if n.get('k') == 'If':
+                rets = [r for r in walk(n.get('then') or {}) if r.get('k') == 'Return' and r.get('value') is not None and
+                        strip_all_casts(r['value']).get('lit') != 'null']
+                if rets:
+                    post = _norm(expr_str(deep_resolve(n['cond'], finder)))
     pname = finder['params'][0]['name'] if finder['params'] else 'pos'
     want_post = '((%s >= filePosition) && (%s < (uncompressedFileSize + filePosition)))' % (pname, pname)
     alt_post = '((%s >= filePosition) && (%s < (filePosition + uncompressedFileSize)))' % (pname, pname)
